@@ -98,23 +98,28 @@ def check(repo, tier):
                         bad.append('the last core does not depend on y')
                     if not sz_eq(last.shape[1], d):
                         bad.append(f'the last core has mode size {last.shape[1]} instead of the number of outputs {d}')
-                    ycontr = [e for e in sc.events('contract') if e.get('fn') is not None and e['fn'].qual == entry]
-                    if ycontr:
-                        e = ycontr[-1]
-                        yb = e['b']
-                        ax = e['axes'][1][0]
-                        # the contracted axis of the y operand must be its snapshot axis (axis 1 of y, i.e. axis 0 of y.T)
-                        src = yb
-                        transposed = False
-                        while isinstance(src, Arr) and src.tags.get('role') != 'y' and src.parents:
+                    def trace_y(arr):
+                        """(is a (transposed) view of y, transposed?)"""
+                        src, transposed = arr, False
+                        while isinstance(src, Arr) and src.tags.get('role') != 'y' and src.parents and src.origin in ('transpose', 'copy', 'astype', 'asarray'):
                             if src.origin == 'transpose':
                                 transposed = not transposed
                             src = src.parents[0]
-                        snap_axis = 0 if transposed else 1
-                        if not (isinstance(src, Arr) and src.tags.get('role') == 'y' and ax == snap_axis):
-                            bad.append('y is not contracted over its snapshot index')
-                    else:
-                        bad.append('no contraction with y found')
+                        return (isinstance(src, Arr) and src.tags.get('role') == 'y'), transposed
+                    found = False
+                    for e in sc.events('contract'):
+                        for side in (0, 1):
+                            op = e['a'] if side == 0 else e['b']
+                            is_y, transposed = trace_y(op)
+                            if not is_y or op.ndim != 2:
+                                continue
+                            found = True
+                            # the contracted axis of the y operand must be its snapshot axis (axis 1 of y, i.e. axis 0 of y.T)
+                            snap_axis = 0 if transposed else 1
+                            if list(e['axes'][side]) != [snap_axis]:
+                                bad.append('y is not contracted over its snapshot index')
+                    if not found:
+                        raise AnalysisError(f'{scen}: the last core depends on y but the way y enters is not a contraction the analysis recognises')
             run.oblige('D1', (entry, scen), not bad, sample={'rule': 'D1', 'scenario': scen, 'verdict': 'held' if not bad else 'VIOLATED'} if thr == 0.0 and d == 2 and p == 2 else None)
             if bad:
                 run.add(F(entry, 'D1', 'MANDy structure', f'{scen}: ' + '; '.join(sorted(set(bad))[:3])))
